@@ -20,7 +20,8 @@ THEOREMS_BY_PROP = {
     "C08": ["DepLogic.C08.evalPyCore_iff", "DepLogic.C08.compatible_of_exists", "DepLogic.C08.exists_of_compatible",
             "DepLogic.C08.exists_cut_of_compatible", "DepLogic.C08.wheelSpec_reads",
             "DepLogic.C08.score_shape", "DepLogic.C08.abiGate_iff", "DepLogic.C08.maxScore_spec",
-            "DepLogic.C08.compatibility_score", "DepLogic.C08.compatibility_none", "DepLogic.C08.compatibility_perm", "DepLogic.C05.isEmpty_sound", "DepLogic.C01.and_exact",
+            "DepLogic.C08.compatibility_score", "DepLogic.C08.compatibility_none", "DepLogic.C08.compatibility_perm",
+            "DepLogic.C16.evalPyCore_cut_iff", "DepLogic.C05.isEmpty_sound", "DepLogic.C01.and_exact",
             "DepLogic.C04.leaf_exact"],
     "C09": ["DepLogic.C09.manylinux_tags", "DepLogic.C09.manylinuxLoop_mem", "DepLogic.C09.manylinuxLoop_sorted",
             "DepLogic.C09.musllinux_tags", "DepLogic.C09.macos_arm64_tags", "DepLogic.C09.macos10_x86_64_tags",
@@ -31,7 +32,8 @@ THEOREMS_BY_PROP = {
             "DepLogic.C16.compare_incompatible_symm", "DepLogic.C16.compare_not_higher_both",
             "DepLogic.C16.manylinux_nested", "DepLogic.C16.beq_refl", "DepLogic.C16.beq_symm",
             "DepLogic.C16.platCompare_nested", "DepLogic.C16.platCompare_nested_higher", "DepLogic.C16.compare_nested",
-            "DepLogic.C16.nested_needs_sameLine"],
+            "DepLogic.C16.nested_needs_sameLine", "DepLogic.C16.compatibility_widen", "DepLogic.C16.evalPy_widen",
+            "DepLogic.C16.wheelSpec_canon"],
     "C18": ["DepLogic.C18.wheel_roundtrip", "DepLogic.C18.bad_extension", "DepLogic.C18.bad_part_count",
             "DepLogic.C18.aliases", "DepLogic.C18.splitC_joinDash", "DepLogic.C18.platform_roundtrip",
             "DepLogic.C18.manylinux_roundtrip", "DepLogic.C18.macos_roundtrip", "DepLogic.Lex.natOfDigits_toString"],
